@@ -36,6 +36,11 @@ pub struct Program {
     /// what a command queued must not kill that service thread either
     #[serde(default)]
     pub ticks: bool,
+    /// (with `ticks`) the first background snapshot meets a disk error when it opens a values file for writing (no
+    /// space left): that thread's own failure is the environment's, but no client command may crash a handler or
+    /// fail for other clients because of it
+    #[serde(default)]
+    pub disk_error: bool,
 }
 
 pub const WORDS: [&str; 46] = [
@@ -99,7 +104,7 @@ fn gen_concurrent_admins(rng: &mut Rng) -> Program {
     let pick = |rng: &mut Rng| LINES[rng.below(LINES.len() as u64) as usize].to_string();
     let lines: Vec<String> = (0..n).map(|_| pick(rng)).collect();
     let companion: Vec<String> = (0..n).map(|_| pick(rng)).collect();
-    Program { via: Via::Tcp, admin: true, select_db: true, lines, raw_hex: vec![], repeat: 1, companion, ticks: rng.chance(1, 3) }
+    Program { via: Via::Tcp, admin: true, select_db: true, lines, raw_hex: vec![], repeat: 1, companion, ticks: rng.chance(1, 3), disk_error: false }
 }
 
 fn gen(rng: &mut Rng) -> Program {
@@ -119,7 +124,16 @@ fn gen(rng: &mut Rng) -> Program {
     }
     let repeat = if rng.chance(1, 10) { rng.range(101, 260) as u32 } else { 1 };
     let companion: Vec<String> = if rng.chance(1, 2) { (0..n).map(|_| gen_line(rng)).collect() } else { vec![] };
-    Program { via, admin: rng.chance(1, 2), select_db: rng.chance(2, 3), lines, raw_hex, repeat, companion, ticks: rng.chance(1, 4) }
+    let ticks = rng.chance(1, 4);
+    let disk_error = ticks && rng.chance(1, 3);
+    let mut lines = lines;
+    if disk_error {
+        // something to snapshot, and commands that use the snapshot queue afterwards
+        lines.insert(0, "snapshot false q".to_string());
+        lines.push(["snapshot false q", "snapshot true q r", "replicate-snapshot q", "snapshot false"][rng.below(4) as usize].to_string());
+    }
+    let admin = if disk_error { true } else { rng.chance(1, 2) };
+    Program { via, admin, select_db: rng.chance(2, 3), lines, raw_hex, repeat, companion, ticks, disk_error }
 }
 
 struct Outcome {
@@ -200,13 +214,29 @@ fn execute(prog: Program) -> Outcome {
         prelude.push("use-db q tokq".to_string());
     }
     let mut seen_panics = 0usize;
+    let mut disk_error_armed = false;
     let mut check = |out: &mut Outcome, line: &str, n: u64| -> bool {
         // give the node time to work (elections started by admin commands take a while)
         sleep_ms(20);
         if prog.ticks {
+            if prog.disk_error && !disk_error_armed {
+                disk_error_armed = true;
+                let idx = w.nodes[0].idx;
+                with(|k| k.nodes[idx as usize].fail_open = Some("-nun.data".to_string()));
+            }
+            let before = with(|k| k.panics.len());
             // a tick that does not come back is a dead (panicked) or stuck background thread: the panic list / the
             // probe below says which
             w.declutter_tick(0, 3_000);
+            if prog.disk_error {
+                // the background thread's own death on the injected disk error is not a client's doing
+                let idx = w.nodes[0].idx;
+                let fired = with(|k| k.nodes[idx as usize].fail_open.is_none());
+                let now = with(|k| k.panics.clone());
+                if fired && now.len() > before && seen_panics == before && now[before..].iter().all(|p| p.message.contains("injected")) {
+                    seen_panics = now.len();
+                }
+            }
         }
         let panics = with(|k| k.panics.clone());
         if panics.len() > seen_panics {
@@ -338,7 +368,7 @@ fn execute(prog: Program) -> Outcome {
 
 fn short(s: &str) -> String {
     if s.len() > 120 {
-        format!("{}...({} bytes)", &s[..100.min(s.len())].chars().take(100).collect::<String>(), s.len())
+        format!("{}...({} bytes)", s.chars().take(100).collect::<String>(), s.len())
     } else {
         s.to_string()
     }
@@ -433,9 +463,14 @@ impl Property for C10 {
             q.repeat = 1;
             out.push(serde_json::to_value(&q).unwrap());
         }
-        if p.ticks {
+        if p.ticks && !p.disk_error {
             let mut q = p.clone();
             q.ticks = false;
+            out.push(serde_json::to_value(&q).unwrap());
+        }
+        if p.disk_error {
+            let mut q = p.clone();
+            q.disk_error = false;
             out.push(serde_json::to_value(&q).unwrap());
         }
         if !p.companion.is_empty() {
